@@ -292,6 +292,200 @@ Proof.
 Qed.
 
 (* ================================================================================================================ *)
+(* unfolding equations of the resolver (the mutual fixpoint does not refold under cbn/simpl) *)
+Section CompileEq.
+  Variable strict : bool.
+  Variable mods : list string.
+  Notation ce := (cexpr strict mods).
+  Notation ct := (ctarget strict mods).
+  Notation cc := (cclause strict mods).
+  Notation cp := (cparam strict mods).
+  Variables (sc : scope) (k : nat).
+
+  Lemma ce_ENone : ce sc k ENone = Some (XNone, k). Proof. reflexivity. Qed.
+  Lemma ce_EBool b : ce sc k (EBool b) = Some (XBool b, k). Proof. reflexivity. Qed.
+  Lemma ce_EInt z : ce sc k (EInt z) = Some (XInt z, k). Proof. reflexivity. Qed.
+  Lemma ce_EStr x : ce sc k (EStr x) = Some (XStr x, k). Proof. reflexivity. Qed.
+  Lemma ce_EVar x : ce sc k (EVar x) = match cvar mods sc x with Some v => Some (XVar v, k) | None => None end.
+  Proof. reflexivity. Qed.
+  Lemma ce_ETuple es : ce sc k (ETuple es) = match omapS (ce sc) k es with Some (es', k') => Some (XTuple es', k') | None => None end.
+  Proof. reflexivity. Qed.
+  Lemma ce_EList es : ce sc k (EList es) = match omapS (ce sc) k es with Some (es', k') => Some (XList es', k') | None => None end.
+  Proof. reflexivity. Qed.
+  Lemma ce_EDict kvs : ce sc k (EDict kvs) =
+    match omapS (fun k kv => match ce sc k (fst kv) with
+                             | Some (a, k1) => match ce sc k1 (snd kv) with
+                                               | Some (b, k2) => Some ((a, b), k2) | None => None end
+                             | None => None end) k kvs with
+    | Some (kvs', k') => Some (XDict kvs', k') | None => None end.
+  Proof. reflexivity. Qed.
+  Lemma ce_EUn o a : ce sc k (EUn o a) = match ce sc k a with Some (a', k') => Some (XUn o a', k') | None => None end.
+  Proof. reflexivity. Qed.
+  Lemma ce_EBin o a b : ce sc k (EBin o a b) =
+    match ce sc k a with
+    | Some (a', k1) => match ce sc k1 b with Some (b', k2) => Some (XBin o a' b', k2) | None => None end
+    | None => None end.
+  Proof. reflexivity. Qed.
+  Lemma ce_EAnd a b : ce sc k (EAnd a b) =
+    match ce sc k a with
+    | Some (a', k1) => match ce sc k1 b with Some (b', k2) => Some (XAnd a' b', k2) | None => None end
+    | None => None end.
+  Proof. reflexivity. Qed.
+  Lemma ce_EOr a b : ce sc k (EOr a b) =
+    match ce sc k a with
+    | Some (a', k1) => match ce sc k1 b with Some (b', k2) => Some (XOr a' b', k2) | None => None end
+    | None => None end.
+  Proof. reflexivity. Qed.
+  Lemma ce_EIf c t f : ce sc k (EIf c t f) =
+    match ce sc k c with
+    | Some (c', k1) =>
+        match ce sc k1 t with
+        | Some (t', k2) => match ce sc k2 f with Some (f', k3) => Some (XIf c' t' f', k3) | None => None end
+        | None => None end
+    | None => None end.
+  Proof. reflexivity. Qed.
+  Lemma ce_EIndex a b : ce sc k (EIndex a b) =
+    match ce sc k a with
+    | Some (a', k1) => match ce sc k1 b with Some (b', k2) => Some (XIndex a' b', k2) | None => None end
+    | None => None end.
+  Proof. reflexivity. Qed.
+  Lemma ce_ESlice a lo hi st : ce sc k (ESlice a lo hi st) =
+    match ce sc k a with
+    | Some (a', k1) =>
+        match copt (ce sc) k1 lo with
+        | Some (lo', k2) =>
+            match copt (ce sc) k2 hi with
+            | Some (hi', k3) =>
+                match copt (ce sc) k3 st with
+                | Some (st', k4) => Some (XSlice a' lo' hi' st', k4) | None => None end
+            | None => None end
+        | None => None end
+    | None => None end.
+  Proof. reflexivity. Qed.
+  Lemma ce_ECall f args kwargs star dstar : ce sc k (ECall f args kwargs star dstar) =
+    match ce sc k f with
+    | Some (f', k1) =>
+        match omapS (ce sc) k1 args with
+        | Some (args', k2) =>
+            match omapS (fun k kv => match ce sc k (snd kv) with
+                                     | Some (v, k') => Some ((fst kv, v), k') | None => None end) k2 kwargs with
+            | Some (kwargs', k3) =>
+                match copt (ce sc) k3 star with
+                | Some (star', k4) =>
+                    match copt (ce sc) k4 dstar with
+                    | Some (dstar', k5) => Some (XCall f' args' kwargs' star' dstar', k5) | None => None end
+                | None => None end
+            | None => None end
+        | None => None end
+    | None => None end.
+  Proof. reflexivity. Qed.
+  Lemma ce_EMeth r m args kwargs : ce sc k (EMeth r m args kwargs) =
+    match ce sc k r with
+    | Some (r', k1) =>
+        match omapS (ce sc) k1 args with
+        | Some (args', k2) =>
+            match omapS (fun k kv => match ce sc k (snd kv) with
+                                     | Some (v, k') => Some ((fst kv, v), k') | None => None end) k2 kwargs with
+            | Some (kwargs', k3) => Some (XMeth r' m args' kwargs', k3)
+            | None => None end
+        | None => None end
+    | None => None end.
+  Proof. reflexivity. Qed.
+  Lemma ce_ELambda ps body : ce sc k (ELambda ps body) =
+    match omapS (cp sc) k ps with
+    | Some (ps', k1) =>
+        let pnames := map param_name ps in
+        let slotnames := dedup pnames in
+        let capt := fun x => mem x (fvg false body) in
+        if nodupb pnames then
+          match fun_scope sc slotnames capt (remove_all slotnames (fvg true body)) with
+          | Some (sc', parents, n) =>
+              match ce sc' n body with
+              | Some (body', kf) =>
+                  Some (XLambda ps' {| di_names := slotnames; di_nslots := kf;
+                                       di_wrap := wrap_slots slotnames pnames capt; di_parents := parents |} body', k1)
+              | None => None end
+          | None => None end
+        else None
+    | None => None end.
+  Proof. reflexivity. Qed.
+  Lemma ce_EListComp body cls : ce sc k (EListComp body cls) =
+    match cls with
+    | CFor t0 e0 :: r =>
+        match ce sc k e0 with
+        | Some (e0', k1) =>
+            let capt := fun x => mem x (fvt false t0 ++ flat_map (fvc false) r ++ fvg false body) in
+            match compr_scope strict sc k1 (Sem.dedup (clause_names cls)) capt with
+            | Some (sc', vars, k2) =>
+                match ct sc' k2 t0 with
+                | Some (t0', k3) =>
+                    match omapS (cc sc') k3 r with
+                    | Some (r', k4) =>
+                        match ce sc' k4 body with
+                        | Some (body', k5) => Some (XListComp vars body' (XCFor t0' e0' :: r'), k5)
+                        | None => None end
+                    | None => None end
+                | None => None end
+            | None => None end
+        | None => None end
+    | _ => None
+    end.
+  Proof. destruct cls as [|[|] ?]; reflexivity. Qed.
+  Lemma ce_EDictComp kx vx cls : ce sc k (EDictComp kx vx cls) =
+    match cls with
+    | CFor t0 e0 :: r =>
+        match ce sc k e0 with
+        | Some (e0', k1) =>
+            let capt := fun x => mem x (fvt false t0 ++ flat_map (fvc false) r ++ fvg false kx ++ fvg false vx) in
+            match compr_scope strict sc k1 (Sem.dedup (clause_names cls)) capt with
+            | Some (sc', vars, k2) =>
+                match ct sc' k2 t0 with
+                | Some (t0', k3) =>
+                    match omapS (cc sc') k3 r with
+                    | Some (r', k4) =>
+                        match ce sc' k4 kx with
+                        | Some (kx', k5) =>
+                            match ce sc' k5 vx with
+                            | Some (vx', k6) => Some (XDictComp vars kx' vx' (XCFor t0' e0' :: r'), k6)
+                            | None => None end
+                        | None => None end
+                    | None => None end
+                | None => None end
+            | None => None end
+        | None => None end
+    | _ => None
+    end.
+  Proof. destruct cls as [|[|] ?]; reflexivity. Qed.
+
+  Lemma cc_CFor t e : cc sc k (CFor t e) =
+    match ce sc k e with
+    | Some (e', k1) => match ct sc k1 t with Some (t', k2) => Some (XCFor t' e', k2) | None => None end
+    | None => None end.
+  Proof. reflexivity. Qed.
+  Lemma cc_CIf e : cc sc k (CIf e) = match ce sc k e with Some (e', k1) => Some (XCIf e', k1) | None => None end.
+  Proof. reflexivity. Qed.
+
+  Lemma cp_eq p : cp sc k p =
+    match p with
+    | PNormal x (Some d) => match ce sc k d with Some (d', k1) => Some (SPNormal x (Some d'), k1) | None => None end
+    | PNormal x None => Some (SPNormal x None, k)
+    | PArgs x => Some (SPArgs x, k)
+    | PKwargs x => Some (SPKwargs x, k)
+    end.
+  Proof. destruct p as [x [d|]|x|x]; reflexivity. Qed.
+
+  Lemma ct_TVar x : ct sc k (TVar x) = match cvar mods sc x with Some v => Some (XTVar v, k) | None => None end.
+  Proof. reflexivity. Qed.
+  Lemma ct_TTuple ts : ct sc k (TTuple ts) = match omapS (ct sc) k ts with Some (ts', k') => Some (XTTuple ts', k') | None => None end.
+  Proof. reflexivity. Qed.
+  Lemma ct_TIndex a i : ct sc k (TIndex a i) =
+    match ce sc k a with
+    | Some (a', k1) => match ce sc k1 i with Some (i', k2) => Some (XTIndex a' i', k2) | None => None end
+    | None => None end.
+  Proof. reflexivity. Qed.
+End CompileEq.
+
+(* ================================================================================================================ *)
 (* Part B: the relation between a state of the reference interpreter and a state of the slot machine.
    Values, list and dict addresses, closure addresses and the transcript are EQUAL on both sides; the reference
    has one cell per variable, the machine has frame slots, module slots and (lazily allocated) captured cells.
@@ -401,6 +595,9 @@ Proof.
   - intros a Hd. destruct (B4 a Hd) as [H|[H|H]]; auto.
     right; left; lia.
 Qed.
+
+Lemma PostC_ext O r r' s s1 s2 : PostC O r r' s s1 -> cells s2 = cells s1 -> PostC O r r' s s2.
+Proof. intros [A1 A2 A3 A4] E. constructor; auto; rewrite E; auto. Qed.
 
 Lemma PostC_weaken (O O' : nat -> Prop) r r' s s' : (forall a, O a -> O' a) -> PostC O r r' s s' -> PostC O' r r' s s'.
 Proof.
@@ -1122,7 +1319,7 @@ Proof.
   - destruct (cparam true mods sc k p) as [[p' k1]|] eqn:Ep; [|discriminate].
     destruct (omapS (cparam true mods sc) k1 ps) as [[ps1 k2]|] eqn:Er; [|discriminate]. inversion H; subst.
     cbn [map]. rewrite (IH _ _ _ Er). f_equal.
-    destruct p as [x [d|]|x|x]; cbn [cparam] in Ep.
+    rewrite cp_eq in Ep. destruct p as [x [d|]|x|x].
     + destruct (cexpr true mods sc k d) as [[d' ?]|]; [|discriminate]. inversion Ep. reflexivity.
     + inversion Ep. reflexivity.
     + inversion Ep. reflexivity.
@@ -1147,7 +1344,7 @@ Proof.
   destruct (capture_all en sc _ r s t G F Hall) as (r1 & t1 & cs & E1 & Hf & G1 & F1 & P1 & Q1).
   unfold make_closure, sbind. rewrite Hpf, E1. unfold alloc_clo, salloc_clo, rres.
   split; [rewrite (g_clen _ _ _ G1); reflexivity|]. exists r1.
-  split; [|split; [|split; [exact P1|exact Q1]]].
+  split; [|split; [|split; [eapply PostC_ext; [exact P1|reflexivity]|intros i Hbi Hvi; apply Q1; assumption]]].
   - apply GInv_alloc_clo; [exact G1|].
     econstructor; cbn [c_params c_defaults c_body c_env sc_params sc_defaults sc_info sc_body sc_captured]; eauto.
     + apply (f_nodup _ _ _ _ _ F).
@@ -1155,4 +1352,651 @@ Proof.
     + intros x Hl Hh. pose proof (f_vars _ _ _ _ _ F x) as Hx. unfold is_local in Hl.
       destruct (sassoc x (sc_entries sc)); [discriminate|]. auto.
   - eapply FrameRel_ext; [exact F1| |]; reflexivity.
+Qed.
+
+(* ================================================================================================================ *)
+(* Part C.4: entering and leaving the scope of a comprehension *)
+Lemma compr_scope_inv sc k names capt sc' vars k2 :
+  compr_scope true sc k names capt = Some (sc', vars, k2) ->
+  (forall x, In x names -> capt x = false) /\
+  sc' = {| sc_entries := map (fun jx => (snd jx, (fst jx, capt (snd jx)))) (indexed (Nat.max k (sc_bound sc)) names) ++ sc_entries sc;
+           sc_hidden := sc_hidden sc |}.
+Proof.
+  unfold compr_scope. cbn [andb]. destruct (existsb capt names) eqn:E; [discriminate|]. intros H. inversion H; subst.
+  split; [|reflexivity]. intros x Hx. destruct (capt x) eqn:Ec; [|reflexivity].
+  assert (existsb capt names = true) by (apply existsb_exists; eauto). congruence.
+Qed.
+
+Lemma compr_entries sc base names capt x :
+  (forall y, In y names -> capt y = false) ->
+  sassoc x (map (fun jx : nat * string => (snd jx, (fst jx, capt (snd jx)))) (indexed base names) ++ sc_entries sc) =
+  match sidx x names with Some j => Some (base + j, false) | None => sassoc x (sc_entries sc) end.
+Proof.
+  intros Hc. rewrite sassoc_app, sassoc_indexed. destruct (sidx x names) as [j|] eqn:E; cbn [option_map]; [|reflexivity].
+  rewrite Hc; [reflexivity|]. apply sidx_nth in E. eapply nth_error_In; eauto.
+Qed.
+
+Lemma lookup_new x new names :
+  map fst new = names ->
+  match sidx x names with
+  | Some _ => exists a, lookup x new = Some a /\ In a (map snd new)
+  | None => lookup x new = None
+  end.
+Proof.
+  intros <-. destruct (sidx x (map fst new)) eqn:E.
+  - destruct (lookup x new) as [a|] eqn:L; [exists a; split; [reflexivity|eapply lookup_In; eauto]|].
+    apply lookup_none_notin in L. apply sidx_none in L. congruence.
+  - apply lookup_none_notin. apply sidx_none. exact E.
+Qed.
+
+Lemma NoDup_app_iff' {X} (l1 l2 : list X) :
+  NoDup l1 /\ NoDup l2 /\ (forall a, In a l1 -> In a l2 -> False) -> NoDup (l1 ++ l2).
+Proof.
+  intros (H1 & H2 & H3). induction l1 as [|x l1 IH]; cbn; [exact H2|].
+  inversion H1; subst. constructor.
+  - intros Hin. apply in_app_or in Hin. destruct Hin; [contradiction|]. eapply H3; [left; reflexivity|eassumption].
+  - apply IH; [assumption|]. intros a Ha. apply H3. right. exact Ha.
+Qed.
+
+Definition grow (s : state) (m : nat) : state :=
+  {| lists := lists s; dicts := dicts s; cells := cells s ++ repeat None m; clos := clos s; out := out s |}.
+
+Lemma GInv_grow r s t m : GInv r s t -> GInv r (grow s m) t.
+Proof.
+  intros G. destruct G. constructor; cbn [grow lists dicts cells clos out]; auto.
+  - intros a c H. destruct (g_cells0 a c H) as (B1 & B2 & B3 & B4). rewrite app_length, nth_error_app1 by assumption.
+    repeat split; auto. lia.
+  - intros a H. rewrite app_length. specialize (g_genv0 a H). lia.
+  - intros x j H. destruct (g_mods0 x j H) as (a & o & L & E1 & E2). exists a, o.
+    rewrite nth_error_app1 by (apply nth_error_Some; congruence). auto.
+  - intros k cl scl H1 H2. eapply clo_rel_mono; [apply sub_refl| |eauto]. rewrite app_length. lia.
+Qed.
+
+Lemma nth_error_repeat_none {X} m i (x : option X) : nth_error (repeat (@None X) m) i = Some x -> x = None.
+Proof. revert i. induction m; intros [|i]; cbn; try discriminate; [intros H; inversion H; reflexivity|apply IHm]. Qed.
+
+Lemma FrameRel_enter en sc r s t new names capt base :
+  GInv r s t -> FrameRel en sc r s t ->
+  map fst new = names -> map snd new = seq (length (cells s)) (length names) ->
+  (forall y, In y names -> capt y = false) -> sc_bound sc <= base ->
+  FrameRel (new ++ en)
+    {| sc_entries := map (fun jx => (snd jx, (fst jx, capt (snd jx)))) (indexed base names) ++ sc_entries sc;
+       sc_hidden := sc_hidden sc |} r (grow s (length names)) t.
+Proof.
+  intros G [A1 A2 A3 A4] Hf Hs Hc Hb.
+  assert (Hnew : forall a, In a (map snd new) -> length (cells s) <= a < length (cells s) + length names).
+  { intros a Ha. rewrite Hs in Ha. apply in_seq in Ha. lia. }
+  constructor; cbn [sc_entries sc_hidden grow cells].
+  - rewrite map_app. apply NoDup_app_iff'. split; [rewrite Hs; apply seq_NoDup|]. split; [exact A1|].
+    intros a H1 H2. specialize (Hnew a H1). specialize (A2 a H2). lia.
+  - intros a Ha. rewrite map_app in Ha. apply in_app_or in Ha. rewrite app_length, repeat_length.
+    destruct Ha as [Ha|Ha]; [specialize (Hnew a Ha)|specialize (A2 a Ha)]; lia.
+  - intros x y i k k'. rewrite !compr_entries by assumption.
+    destruct (sidx x names) as [jx|] eqn:Ex, (sidx y names) as [jy|] eqn:Ey; intros H1 H2.
+    + inversion H1; inversion H2; subst. assert (jx = jy) by lia. subst. eapply sidx_inj; eauto.
+    + inversion H1; subst. apply sc_bound_lt in H2. lia.
+    + inversion H2; subst. apply sc_bound_lt in H1. lia.
+    + eapply A3; eauto.
+  - intros x. rewrite compr_entries by assumption. pose proof (lookup_new x new names Hf) as Hl.
+    rewrite lookup_app. destruct (sidx x names) as [j|] eqn:Ex.
+    + destruct Hl as (a & La & Hin). rewrite La. exists a. split; [reflexivity|]. specialize (Hnew a Hin).
+      split; [|split].
+      * intros [c Hd]. destruct (g_cells _ _ _ G a c Hd). lia.
+      * intros Hg. pose proof (g_genv _ _ _ G a Hg). lia.
+      * intros v Hv. rewrite nth_error_app2 in Hv by lia. apply nth_error_repeat_none in Hv. discriminate.
+    + rewrite Hl. specialize (A4 x). destruct (sassoc x (sc_entries sc)) as [[i [|]]|]; auto.
+      * destruct A4 as (a & La & Hg & Hcase). exists a. split; [exact La|]. split; [exact Hg|].
+        rewrite nth_error_app1 by (apply A2; eapply lookup_In; eauto). exact Hcase.
+      * destruct A4 as (a & La & Hd & Hg & Hv). exists a. split; [exact La|]. split; [exact Hd|]. split; [exact Hg|].
+        rewrite nth_error_app1 by (apply A2; eapply lookup_In; eauto). exact Hv.
+Qed.
+
+Lemma sc_bound_app l sc : sc_bound sc <= sc_bound {| sc_entries := l ++ sc_entries sc; sc_hidden := sc_hidden sc |}.
+Proof. unfold sc_bound. cbn [sc_entries]. induction l as [|e l IH]; cbn [app fold_right]; lia. Qed.
+
+Lemma compr_exit en sc r r2 s s2 t t2 new names capt base :
+  GInv r s t -> FrameRel en sc r s t ->
+  map fst new = names -> map snd new = seq (length (cells s)) (length names) ->
+  (forall y, In y names -> capt y = false) -> sc_bound sc <= base ->
+  forall sc', sc' = {| sc_entries := map (fun jx => (snd jx, (fst jx, capt (snd jx)))) (indexed base names) ++ sc_entries sc;
+                       sc_hidden := sc_hidden sc |} ->
+  FrameRel (new ++ en) sc' r2 s2 t2 ->
+  PostC (own (new ++ en) sc') r r2 (grow s (length names)) s2 ->
+  FPf sc' t t2 ->
+  FrameRel en sc r2 s2 t2 /\ PostC (own en sc) r r2 s s2 /\ FPf sc t t2.
+Proof.
+  intros G [A1 A2 A3 A4] Hf Hs Hc Hb sc' -> [B1 B2 B3 B4] [P1 P2 P3 P4] Q.
+  cbn [grow cells] in P2, P3, P4. rewrite app_length, repeat_length in P2, P3, P4.
+  assert (Hnew : forall a, In a (map snd new) -> length (cells s) <= a).
+  { intros a Ha. rewrite Hs in Ha. apply in_seq in Ha. lia. }
+  set (sc' := {| sc_entries := _ ++ sc_entries sc; sc_hidden := sc_hidden sc |}) in *.
+  assert (Hown : forall a, own (new ++ en) sc' a ->
+                 length (cells s) <= a \/ exists x e, sidx x names = None /\ sassoc x (sc_entries sc) = Some e /\ lookup x en = Some a).
+  { intros a (x & e & Ex & Lx). unfold sc' in Ex. cbn [sc_entries] in Ex. rewrite compr_entries in Ex by assumption.
+    rewrite lookup_app in Lx. pose proof (lookup_new x new names Hf) as Hl. destruct (sidx x names) as [j|] eqn:Ej.
+    - destruct Hl as (a' & La & Hin). rewrite La in Lx. inversion Lx; subst. left. auto.
+    - rewrite Hl in Lx. right. exists x, e. auto. }
+  assert (Hvs : forall i, vslot sc' i -> base <= i \/ exists x k, sidx x names = None /\ sassoc x (sc_entries sc) = Some (i, k)).
+  { intros i (x & k & Ex). unfold sc' in Ex. cbn [sc_entries] in Ex. rewrite compr_entries in Ex by assumption.
+    destruct (sidx x names) as [j|] eqn:Ej; [inversion Ex; subst; left; lia|right; eauto]. }
+  split; [|split].
+  - constructor; auto.
+    + intros a Ha. specialize (A2 a Ha). lia.
+    + intros x. specialize (A4 x). specialize (B4 x). unfold sc' in B4. cbn [sc_entries sc_hidden] in B4.
+      rewrite compr_entries in B4 by assumption. rewrite lookup_app in B4.
+      pose proof (lookup_new x new names Hf) as Hl. destruct (sidx x names) as [j|] eqn:Ej.
+      * (* shadowed inside the comprehension: untouched *)
+        destruct (sassoc x (sc_entries sc)) as [[i k]|] eqn:Ex; [|exact A4].
+        assert (Hi : fget (cur t2) i = fget (cur t) i).
+        { apply Q; [pose proof (sc_bound_lt _ _ _ _ Ex); pose proof (sc_bound_app (map (fun jx : nat * string => (snd jx, (fst jx, capt (snd jx)))) (indexed base names)) sc); unfold sc'; lia|].
+          intros Hv. destruct (Hvs i Hv) as [?|(y & k' & Ey & Ey')]; [pose proof (sc_bound_lt _ _ _ _ Ex); lia|].
+          assert (y = x) by (eapply A3; eauto). subst y. congruence. }
+        assert (Hno : forall a, lookup x en = Some a -> ~ own (new ++ en) sc' a).
+        { intros a La Ho. pose proof (A2 a (lookup_In _ _ _ La)). destruct (Hown a Ho) as [?|(y & e & Ey & _ & Ly)]; [lia|].
+          assert (y = x) by (exact (lookup_nodup_inj en y x a A1 Ly La)). subst y. congruence. }
+        destruct k.
+        -- destruct A4 as (a & La & Hg & Hcase). exists a. split; [exact La|]. split; [exact Hg|].
+           pose proof (A2 a (lookup_In _ _ _ La)) as Hlt. rewrite Hi.
+           destruct Hcase as [(E1 & E2 & E3)|(c & E1 & E2)]; [left|right; exists c; auto].
+           split; [exact E1|]. split.
+           ++ rewrite P3; auto; [rewrite nth_error_app1 by assumption; exact E2|lia].
+           ++ intros Hd. destruct (P4 a Hd) as [?|[?|?]]; auto; [lia|eapply Hno; eauto].
+        -- destruct A4 as (a & La & Hd & Hg & Hv). exists a. split; [exact La|].
+           pose proof (A2 a (lookup_In _ _ _ La)) as Hlt. rewrite Hi.
+           split; [|split; [exact Hg|]].
+           ++ intros Hd'. destruct (P4 a Hd') as [?|[?|?]]; auto; [lia|eapply Hno; eauto].
+           ++ intros v Hv'. apply Hv. rewrite P3 in Hv'; auto; [rewrite nth_error_app1 in Hv' by assumption; exact Hv'|lia].
+      * rewrite Hl in B4. exact B4.
+  - constructor; auto.
+    + lia.
+    + intros a Hlt Ho Hd Hg. rewrite P3; auto; [apply nth_error_app1; assumption|lia|].
+      intros Ho'. destruct (Hown a Ho') as [?|(y & e & _ & Ey & Ly)]; [lia|]. apply Ho. exists y, e. auto.
+    + intros a Hd. destruct (P4 a Hd) as [?|[?|Ho']]; auto; [right; left; lia|].
+      destruct (Hown a Ho') as [?|(y & e & _ & Ey & Ly)]; [right; left; assumption|]. right. right. exists y, e. auto.
+  - intros i Hbi Hvi. apply Q.
+    + pose proof (sc_bound_app (map (fun jx : nat * string => (snd jx, (fst jx, capt (snd jx)))) (indexed base names)) sc). unfold sc'. lia.
+    + intros Hv. destruct (Hvs i Hv) as [?|(y & k' & _ & Ey)]; [lia|]. apply Hvi. exists y, k'. exact Ey.
+Qed.
+
+(* evaluating `m` in the scope of a comprehension *)
+Lemma sim_compr {A} en sc k names capt sc' vars k2 (m : env -> M A) (sm : SM A) :
+  compr_scope true sc k names capt = Some (sc', vars, k2) ->
+  (forall new, map fst new = names -> simF (new ++ en) sc' (m new) sm) ->
+  simF en sc (new <- alloc_cells names ;; m new) sm.
+Proof.
+  intros Hcs H r s t G F. destruct (compr_scope_inv _ _ _ _ _ _ _ Hcs) as [Hc Esc].
+  destruct (alloc_cells_spec names s) as (new & Ea & Hf & Hs). unfold bind. rewrite Ea. fold (grow s (length names)).
+  assert (Hb : sc_bound sc <= Nat.max k (sc_bound sc)) by lia.
+  pose proof (GInv_grow r s t (length names) G) as G1.
+  pose proof (FrameRel_enter en sc r s t new names capt _ G F Hf Hs Hc Hb) as F1. rewrite <- Esc in F1.
+  specialize (H new Hf r (grow s (length names)) t G1 F1). unfold rres in *.
+  destruct (m new (grow s (length names))) as [a s2|e l s2|]; auto.
+  destruct sm as [b t2|?|]; auto. destruct H as [Eab (r2 & G2 & F2 & P2 & Q2)]. split; [exact Eab|].
+  exists r2. split; [exact G2|]. eapply compr_exit; eauto.
+Qed.
+
+(* ================================================================================================================ *)
+(* Part C.5: targets and comprehension clauses, given the simulation of expressions *)
+Lemma omapS_Forall2 {X Y} (f : nat -> X -> option (Y * nat)) l : forall k l' k',
+  omapS f k l = Some (l', k') -> Forall2 (fun x x' => exists k1 k2, f k1 x = Some (x', k2)) l l'.
+Proof.
+  induction l as [|x l IH]; intros k l' k' H; cbn [omapS] in H.
+  - inversion H. constructor.
+  - destruct (f k x) as [[y k1]|] eqn:E; [|discriminate].
+    destruct (omapS f k1 l) as [[ys k2]|] eqn:Er; [|discriminate]. inversion H; subst.
+    constructor; [eauto|eapply IH; eauto].
+Qed.
+
+Lemma Forall2_length' {X Y} (R : X -> Y -> Prop) l l' : Forall2 R l l' -> length l = length l'.
+Proof. intros F. induction F; cbn; congruence. Qed.
+
+Section AssignSim.
+  Variables (ev : env -> expr -> M value) (sev : sexpr -> SM value).
+  Variables (en : env) (sc : scope).
+  Hypothesis Hev : forall k e e' k', cexprT sc k e = Some (e', k') -> simF en sc (ev en e) (sev e').
+
+  Lemma sim_assign t : forall k t' k' v,
+    ctarget true mods sc k t = Some (t', k') -> simF en sc (assign ev en t v) (sassign sev t' v).
+  Proof.
+    induction t as [x|ts IH|a i] using target_ind'; intros k t' k' v H.
+    - rewrite ct_TVar in H. destruct (cvar mods sc x) as [w|] eqn:Ec; [|discriminate]. inversion H; subst.
+      cbn [assign sassign]. apply sim_store. exact Ec.
+    - rewrite ct_TTuple in H. destruct (omapS (ctarget true mods sc) k ts) as [[ts' k1]|] eqn:Eo; [|discriminate].
+      inversion H; subst. apply omapS_Forall2 in Eo. cbn [assign sassign].
+      apply sim_bind; [apply okF|apply sim_lift; [apply okF|destruct v; pure_auto]|]. intros vs.
+      rewrite <- (Forall2_length' _ _ _ Eo). destruct (Nat.eqb (length ts) (length vs)); [|apply sim_fail].
+      clear H. revert vs. induction Eo as [|t0 t0' ts ts' (k1' & k2' & Ht) _ IHts]; intros vs.
+      + apply sim_ret; apply okF.
+      + destruct vs as [|v0 vs]; [apply sim_ret; apply okF|].
+        inversion IH; subst. apply sim_bind; [apply okF|eapply H1; eauto|]. intros _. apply IHts. assumption.
+    - rewrite ct_TIndex in H. destruct (cexprT sc k a) as [[a' k1]|] eqn:Ea; [|discriminate].
+      destruct (cexprT sc k1 i) as [[i' k2]|] eqn:Ei; [|discriminate]. inversion H; subst. cbn [assign sassign].
+      apply sim_bind; [apply okF|eapply Hev; eauto|]. intros av.
+      apply sim_bind; [apply okF|eapply Hev; eauto|]. intros iv.
+      apply sim_lift; [apply okF|apply pure_set_index].
+  Qed.
+
+  Definition crel (c : clause) (c' : sclause) : Prop := exists k k', cclause true mods sc k c = Some (c', k').
+
+  Lemma sim_comp_for t t' (p : value * list value) (rest : M unit) (srest : SM unit) :
+    (exists k k', ctarget true mods sc k t = Some (t', k')) -> simF en sc rest srest ->
+    simF en sc
+      (with_lock (fst p) ((fix go (vs : list value) : M unit :=
+                             match vs with [] => ret tt | v :: vs' => assign ev en t v ;;; rest ;;; go vs' end) (snd p)))
+      (swith_lock (fst p) ((fix go (vs : list value) : SM unit :=
+                              match vs with [] => sret tt | v :: vs' => sassign sev t' v ;;~ srest ;;~ go vs' end) (snd p))).
+  Proof.
+    intros (k & k' & Ht) Hr. apply sim_with_lock; [apply okF|].
+    induction (snd p) as [|v vs IHv]; [apply sim_ret; apply okF|].
+    apply sim_bind; [apply okF|eapply sim_assign; eauto|]. intros _.
+    apply sim_bind; [apply okF|exact Hr|]. intros _. exact IHv.
+  Qed.
+
+  Lemma sim_comp_clauses cls cls' (kk : M unit) (skk : SM unit) :
+    Forall2 crel cls cls' -> simF en sc kk skk ->
+    simF en sc (comp_clauses ev en cls None kk) (scomp_clauses sev cls' None skk).
+  Proof.
+    intros F Hk. induction F as [|c c' cls cls' (k & k' & Hc) _ IH]; cbn [comp_clauses scomp_clauses]; [exact Hk|].
+    destruct c as [t e|e].
+    - rewrite cc_CFor in Hc. destruct (cexprT sc k e) as [[e' k1]|] eqn:Ee; [|discriminate].
+      destruct (ctarget true mods sc k1 t) as [[t' k2]|] eqn:Et; [|discriminate]. inversion Hc; subst.
+      apply sim_bind; [apply okF| |].
+      + apply sim_bind; [apply okF|eapply Hev; eauto|]. intros it.
+        apply sim_bind; [apply okF|apply sim_lift; [apply okF|apply pure_iter_elems]|]. intros vs. apply sim_ret; apply okF.
+      + intros p. apply sim_comp_for; eauto.
+    - rewrite cc_CIf in Hc. destruct (cexprT sc k e) as [[e' k1]|] eqn:Ee; [|discriminate]. inversion Hc; subst.
+      apply sim_bind; [apply okF|eapply Hev; eauto|]. intros cv.
+      apply (sim_truth _ _ _ cv (fun b => if b then comp_clauses ev en cls None kk else ret tt)
+                               (fun b => if b then scomp_clauses sev cls' None skk else sret tt)).
+      intros [|]; [exact IH|apply sim_ret; apply okF].
+  Qed.
+
+  Lemma sim_comp_first t0 e0 t0' e0' r r' vs (kk : M unit) (skk : SM unit) :
+    (exists k k', ctarget true mods sc k t0 = Some (t0', k')) -> Forall2 crel r r' -> simF en sc kk skk ->
+    simF en sc (comp_clauses ev en (CFor t0 e0 :: r) (Some vs) kk) (scomp_clauses sev (XCFor t0' e0' :: r') (Some vs) skk).
+  Proof.
+    intros Ht F Hk. cbn [comp_clauses scomp_clauses].
+    apply sim_bind; [apply okF|apply sim_ret; apply okF|]. intros p.
+    apply sim_comp_for; [exact Ht|]. apply sim_comp_clauses; assumption.
+  Qed.
+End AssignSim.
+
+(* ================================================================================================================ *)
+(* Part C.6: calls: argument binding, the new frame *)
+Lemma bind_params_erase ps : forall d pos named seen,
+  bind_params (map erase_default ps) d pos named seen = bind_params ps d pos named seen.
+Proof.
+  induction ps as [|p ps IH]; intros d pos named seen; [reflexivity|].
+  destruct p as [x dflt|x|x]; cbn [map erase_default bind_params].
+  - destruct (if seen then [] else pos), (assoc_remove x named) as [[? ?]|]; rewrite ?IH; reflexivity.
+  - rewrite IH. reflexivity.
+  - rewrite IH. reflexivity.
+Qed.
+Lemma has_kwargs_erase ps : has_kwargs (map erase_default ps) = has_kwargs ps.
+Proof.
+  unfold has_kwargs. induction ps as [|p ps IH]; [reflexivity|]. cbn [map fold_right]. rewrite IH.
+  destruct p; reflexivity.
+Qed.
+Lemma has_kwargs_In ps x : has_kwargs ps = Some x -> In x (map param_name ps).
+Proof.
+  unfold has_kwargs. induction ps as [|p ps IH]; cbn [fold_right map]; [discriminate|].
+  destruct p as [y d|y|y]; cbn [param_name]; intros H.
+  - right. apply IH. exact H.
+  - right. apply IH. exact H.
+  - inversion H. left. reflexivity.
+Qed.
+Lemma bind_params_names ps : forall d pos named seen binds p n,
+  bind_params ps d pos named seen = Some (binds, p, n) -> forall b, In b binds -> In (fst b) (map param_name ps).
+Proof.
+  induction ps as [|q ps IH]; intros d pos named seen binds p n H b Hb; cbn [bind_params] in H.
+  - inversion H; subst. contradiction.
+  - destruct q as [x dflt|x|x]; cbn [map param_name].
+    + destruct (if seen then [] else pos) as [|v pos'], (assoc_remove x named) as [[w named']|]; try discriminate.
+      * destruct (bind_params ps d pos named' seen) as [[[b0 p0] n0]|] eqn:E; [|discriminate]. inversion H; subst.
+        destruct Hb as [<-|Hb]; [left; reflexivity|right; eapply IH; eauto].
+      * destruct (lookup_default x d); [|discriminate].
+        destruct (bind_params ps d pos named seen) as [[[b0 p0] n0]|] eqn:E; [|discriminate]. inversion H; subst.
+        destruct Hb as [<-|Hb]; [left; reflexivity|right; eapply IH; eauto].
+      * destruct (bind_params ps d pos' named seen) as [[[b0 p0] n0]|] eqn:E; [|discriminate]. inversion H; subst.
+        destruct Hb as [<-|Hb]; [left; reflexivity|right; eapply IH; eauto].
+    + destruct (bind_params ps d [] named true) as [[[b0 p0] n0]|] eqn:E; [|discriminate]. inversion H; subst.
+      destruct Hb as [<-|Hb]; [left; reflexivity|right; eapply IH; eauto].
+    + destruct (bind_params ps d pos [] seen) as [[[b0 p0] n0]|] eqn:E; [|discriminate]. inversion H; subst.
+      right. eapply IH; eauto.
+Qed.
+
+Lemma GInv_cur r s t fr : GInv r s t -> GInv r s (with_cur t fr).
+Proof. intros []. constructor; auto. Qed.
+
+Lemma sidx_nth_iff x l i : NoDup l -> nth_error l i = Some x -> sidx x l = Some i.
+Proof.
+  revert i. induction l as [|y l IH]; intros [|i] ND H; cbn in *; try discriminate.
+  - inversion H; subst. rewrite String.eqb_refl. reflexivity.
+  - inversion ND; subst. destruct (String.eqb_spec x y) as [->|Hn].
+    + exfalso. apply H2. eapply nth_error_In; eauto.
+    + rewrite (IH i H3 H). reflexivity.
+Qed.
+
+Lemma wrap_slots_In slotnames pnames capt i : NoDup slotnames ->
+  In i (wrap_slots slotnames pnames capt) ->
+  exists x, sidx x slotnames = Some i /\ capt x = true /\ In x pnames.
+Proof.
+  intros ND H. unfold wrap_slots in H. apply in_flat_map in H. destruct H as ([j x] & Hin & Hi). cbn [fst snd] in Hi.
+  destruct (capt x) eqn:Ec; [|contradiction]. destruct (mem x pnames) eqn:Em; [|contradiction]. cbn in Hi.
+  destruct Hi as [<-|[]]. exists x. split; [|split; [exact Ec|apply Proofs.mem_In; exact Em]].
+  apply sidx_nth_iff; [exact ND|]. unfold indexed in Hin.
+  assert (forall k l, In (j, x) (combine (seq k (length l)) l) -> k <= j /\ nth_error l (j - k) = Some x) as Hgen.
+  { clear. intros k l. revert k. induction l as [|y l IH]; intros k H; cbn in H; [contradiction|].
+    destruct H as [H|H]; [inversion H; subst; rewrite Nat.sub_diag; auto|].
+    destruct (IH (S k) H) as [H1 H2]. split; [lia|]. replace (j - k) with (S (j - S k)) by lia. exact H2. }
+  destruct (Hgen 0 slotnames Hin) as [_ H2]. rewrite Nat.sub_0_r in H2. exact H2.
+Qed.
+
+(* a sequence of slot stores *)
+Lemma smapM_set_slots (l : list (nat * nat)) : forall t,
+  exists us, smapM (fun pc => set_slot (fst pc) (FCell (snd pc))) l t =
+             SOk us (with_cur t (fold_left (fun fr pc => fset fr (fst pc) (FCell (snd pc))) l (cur t))).
+Proof.
+  induction l as [|[i c] l IH]; intros t; cbn [smapM fold_left].
+  - exists []. unfold sret. destruct t; reflexivity.
+  - unfold sbind at 1. unfold set_slot at 1. cbn [fst snd].
+    destruct (IH (with_cur t (fset (cur t) i (FCell c)))) as [us E]. unfold sbind. rewrite E. eexists. reflexivity.
+Qed.
+
+Lemma fold_fset_other (l : list (nat * nat)) : forall fr i, ~ In i (map fst l) ->
+  fget (fold_left (fun fr pc => fset fr (fst pc) (FCell (snd pc))) l fr) i = fget fr i.
+Proof.
+  induction l as [|[j c] l IH]; intros fr i Hn; cbn [fold_left]; [reflexivity|]. cbn [map fst In] in Hn.
+  rewrite IH by tauto. apply fget_fset_neq. cbn [fst]. intros E. apply Hn. left. exact E.
+Qed.
+Lemma fold_fset_in (l : list (nat * nat)) : forall fr i c, NoDup (map fst l) -> In (i, c) l ->
+  fget (fold_left (fun fr pc => fset fr (fst pc) (FCell (snd pc))) l fr) i = FCell c.
+Proof.
+  induction l as [|[j d] l IH]; intros fr i c ND Hin; cbn [fold_left]; [contradiction|]. cbn [map fst] in ND. inversion ND; subst.
+  destruct Hin as [H|H].
+  - inversion H; subst. rewrite fold_fset_other by assumption. apply fget_fset_eq.
+  - apply IH; assumption.
+Qed.
+
+Definition nonval (t : sstate) (i : nat) : Prop := forall v, fget (cur t) i <> FVal v.
+
+Section Setup.
+  Variables (r : rho) (s : state) (new : env) (slotnames pnames : list string) (capt : string -> bool) (m : nat).
+  Hypothesis Hsnd : map snd new = seq (length (cells s)) m.
+  Hypothesis Hlk : forall x i, sidx x slotnames = Some i -> exists a, lookup x new = Some a.
+  Hypothesis Hpn : forall x, In x pnames -> In x slotnames.
+  Hypothesis Hgenv : forall a, In a (map snd genv) -> a < length (cells s).
+
+  Lemma new_range x a : lookup x new = Some a -> length (cells s) <= a < length (cells s) + m.
+  Proof. intros H. apply lookup_In in H. rewrite Hsnd in H. apply in_seq in H. exact H. Qed.
+  Lemma new_nodup : NoDup (map snd new).
+  Proof. rewrite Hsnd. apply seq_NoDup. Qed.
+
+  Definition own_ok (ph : bool) (r1 : rho) (s1 : state) (t1 : sstate) (x : string) (i a : nat) : Prop :=
+    (nth_error (cells s1) a = Some None /\ fget (cur t1) i = FEmpty /\ ~ dom r1 a) \/
+    (exists v, nth_error (cells s1) a = Some (Some v) /\ fget (cur t1) i = FVal v /\ ~ dom r1 a /\ In x pnames) \/
+    (ph = true /\ capt x = true /\ exists c, fget (cur t1) i = FCell c /\ r1 a c).
+
+  Record SInv (ph : bool) (r1 : rho) (s1 : state) (t1 : sstate) : Prop := {
+    si_G : GInv r1 s1 t1;
+    si_len : length (cells s1) = length (cells s) + m;
+    si_old : forall a, a < length (cells s) -> nth_error (cells s1) a = nth_error (cells s) a;
+    si_sub : sub r r1;
+    si_dom : forall a, dom r1 a -> dom r a \/ length (cells s) <= a;
+    si_own : forall x i, sidx x slotnames = Some i -> exists a, lookup x new = Some a /\ own_ok ph r1 s1 t1 x i a
+  }.
+
+  Lemma setup_binds bs : (forall b, In b bs -> In (fst b) pnames) -> forall r1 s1 t1, SInv false r1 s1 t1 ->
+    exists us us' s2 t2,
+      mapM (fun b => match lookup (fst b) new with Some a => set_cell a (snd b) | None => ret tt end) bs s1 = Ok us s2 /\
+      smapM (fun b => match sidx (fst b) slotnames with Some i => set_slot i (FVal (snd b)) | None => sret tt end) bs t1 = SOk us' t2 /\
+      SInv false r1 s2 t2.
+  Proof.
+    induction bs as [|[x v] bs IH]; intros Hb r1 s1 t1 S1.
+    - exists [], [], s1, t1. cbn. auto.
+    - assert (Hx : In x pnames) by (apply (Hb (x, v)); left; reflexivity).
+      destruct (sidx_some x slotnames (Hpn x Hx)) as [i Ei]. destruct (si_own _ _ _ _ S1 x i Ei) as (a & La & Hok).
+      pose proof (new_range x a La) as Hr.
+      assert (Hlt : a < length (cells s1)) by (rewrite (si_len _ _ _ _ S1); lia).
+      assert (Hd : ~ dom r1 a).
+      { destruct Hok as [(_ & _ & H)|[(w & _ & _ & H & _)|(H & _)]]; auto. discriminate. }
+      assert (Hg : ~ In a (map snd genv)) by (intros H; apply Hgenv in H; lia).
+      set (s1' := {| lists := lists s1; dicts := dicts s1; cells := upd (cells s1) a (Some v); clos := clos s1; out := out s1 |}).
+      set (t1' := with_cur t1 (fset (cur t1) i (FVal v))).
+      assert (S1' : SInv false r1 s1' t1').
+      { constructor.
+        - eapply GInv_priv_write; [apply (si_G _ _ _ _ S1)|apply cells_upd_set; exact Hlt|exact Hd|exact Hg].
+        - cbn [s1' cells]. rewrite length_upd. apply (si_len _ _ _ _ S1).
+        - intros a' Ha'. cbn [s1' cells]. rewrite nth_error_upd_neq by lia. apply (si_old _ _ _ _ S1). exact Ha'.
+        - apply (si_sub _ _ _ _ S1).
+        - apply (si_dom _ _ _ _ S1).
+        - intros y j Ej. destruct (si_own _ _ _ _ S1 y j Ej) as (b & Lb & Hoky). exists b. split; [exact Lb|].
+          destruct (String.eqb_spec y x) as [->|Hn].
+          + assert (j = i) by congruence. assert (b = a) by congruence. subst j b.
+            right. left. exists v. cbn [s1' t1' cells cur with_cur]. rewrite nth_error_upd_eq by exact Hlt. rewrite fget_fset_eq. auto.
+          + assert (b <> a) by (intros ->; apply Hn; eapply lookup_nodup_inj; [apply new_nodup| |]; eauto).
+            assert (j <> i) by (intros ->; apply Hn; eapply sidx_inj; eauto).
+            unfold own_ok in *. cbn [s1' t1' cells cur with_cur]. rewrite nth_error_upd_neq by auto. rewrite fget_fset_neq by auto. exact Hoky. }
+      destruct (IH (fun b Hb' => Hb b (or_intror Hb')) r1 s1' t1' S1') as (us & us' & s2 & t2 & E1 & E2 & S2).
+      cbn [mapM smapM fst snd]. rewrite La, Ei. unfold bind at 1. unfold set_cell at 1. fold s1'.
+      unfold bind. rewrite E1. unfold sbind at 1. unfold set_slot at 1. fold t1'. unfold sbind. rewrite E2.
+      eexists _, _, s2, t2. split; [reflexivity|]. split; [reflexivity|exact S2].
+  Qed.
+
+  Lemma setup_wrap ws : (forall i, In i ws -> exists x, sidx x slotnames = Some i /\ capt x = true /\ In x pnames) ->
+    forall r1 s1 t1, SInv true r1 s1 t1 ->
+    exists us r2 t2, smapM wrap_slot ws t1 = SOk us t2 /\ SInv true r2 s1 t2 /\
+                     (forall i, In i ws \/ nonval t1 i -> nonval t2 i).
+  Proof.
+    induction ws as [|i ws IH]; intros Hw r1 s1 t1 S1.
+    - exists [], r1, t1. cbn. split; [reflexivity|]. split; [exact S1|]. intros i [[]|H]; exact H.
+    - destruct (Hw i (or_introl eq_refl)) as (x & Ei & Hc & Hx). destruct (si_own _ _ _ _ S1 x i Ei) as (a & La & Hok).
+      assert (Hstep : exists r1' t1', wrap_slot i t1 = SOk tt t1' /\ SInv true r1' s1 t1' /\ nonval t1' i /\
+                                      forall j, j <> i -> fget (cur t1') j = fget (cur t1) j).
+      { destruct Hok as [(E1 & E2 & E3)|[(v & E1 & E2 & E3 & E4)|(_ & _ & c & E1 & E2)]].
+        - exists r1, t1. unfold wrap_slot. rewrite E2. split; [reflexivity|]. split; [exact S1|]. split; [|reflexivity].
+          intros v. rewrite E2. discriminate.
+        - pose proof (new_range x a La) as Hr.
+          assert (Hlt : a < length (cells s1)) by (rewrite (si_len _ _ _ _ S1); lia).
+          assert (Hg : ~ In a (map snd genv)) by (intros H; apply Hgenv in H; lia).
+          unfold wrap_slot. rewrite E2. unfold sbind, lift, alloc_cell, set_slot. cbn [base with_base cur].
+          eexists (ext r1 a (length (cells (base t1)))), _. split; [reflexivity|]. split; [|split].
+          + constructor.
+            * eapply GInv_share_new; [apply (si_G _ _ _ _ S1)|apply cells_upd_same; exact E1|exact E3|exact Hg|exact Hlt].
+            * apply (si_len _ _ _ _ S1).
+            * apply (si_old _ _ _ _ S1).
+            * eapply sub_trans; [apply (si_sub _ _ _ _ S1)|apply sub_ext].
+            * intros a' [c' [H|[-> _]]]; [apply (si_dom _ _ _ _ S1); exists c'; exact H|right; lia].
+            * intros y j Ej. destruct (si_own _ _ _ _ S1 y j Ej) as (b & Lb & Hoky). exists b. split; [exact Lb|].
+              destruct (String.eqb_spec y x) as [->|Hn].
+              -- assert (j = i) by congruence. assert (b = a) by congruence. subst j b.
+                 right. right. split; [reflexivity|]. split; [exact Hc|]. exists (length (cells (base t1))).
+                 cbn [cur with_cur with_base]. rewrite fget_fset_eq. split; [reflexivity|]. right. auto.
+              -- assert (b <> a) by (intros ->; apply Hn; eapply lookup_nodup_inj; [apply new_nodup| |]; eauto).
+                 assert (j <> i) by (intros ->; apply Hn; eapply sidx_inj; eauto).
+                 assert (Hnd : ~ dom r1 b -> ~ dom (ext r1 a (length (cells (base t1)))) b).
+                 { intros Hd [c' [H'|[E' _]]]; [apply Hd; exists c'; exact H'|congruence]. }
+                 unfold own_ok in *. cbn [cur with_cur with_base]. rewrite fget_fset_neq by auto.
+                 destruct Hoky as [(F1 & F2 & F3)|[(w & F1 & F2 & F3 & F4)|(F0 & F1 & c' & F2 & F3)]].
+                 ++ left. auto.
+                 ++ right. left. exists w. auto.
+                 ++ right. right. split; [exact F0|]. split; [exact F1|]. exists c'. split; [exact F2|]. left. exact F3.
+          + intros w. cbn [cur with_cur with_base]. rewrite fget_fset_eq. discriminate.
+          + intros j Hj. cbn [cur with_cur with_base]. apply fget_fset_neq. auto.
+        - exists r1, t1. unfold wrap_slot. rewrite E1. split; [reflexivity|]. split; [exact S1|]. split; [|reflexivity].
+          intros v. rewrite E1. discriminate. }
+      destruct Hstep as (r1' & t1' & E1 & S1' & Hnv & Hfr).
+      destruct (IH (fun j Hj => Hw j (or_intror Hj)) r1' s1 t1' S1') as (us & r2 & t2 & E2 & S2 & Hn2).
+      exists (tt :: us), r2, t2. cbn [smapM]. unfold sbind at 1. rewrite E1. unfold sbind. rewrite E2. split; [reflexivity|].
+      split; [exact S2|]. intros j [[<-|Hj]|Hj].
+      + apply Hn2. right. exact Hnv.
+      + apply Hn2. left. exact Hj.
+      + apply Hn2. right. destruct (Nat.eq_dec j i) as [->|Hne]; [exact Hnv|]. intros v. rewrite Hfr by exact Hne. apply Hj.
+  Qed.
+End Setup.
+
+Lemma nth_error_repeat {X} (x : X) m k : k < m -> nth_error (repeat x m) k = Some x.
+Proof. revert k. induction m; intros [|k] H; cbn; try lia; auto. apply IHm. lia. Qed.
+
+Lemma in_combine_fst {X Y} (l1 : list X) (l2 : list Y) a : In a (map fst (combine l1 l2)) -> In a l1.
+Proof.
+  revert l2. induction l1 as [|x l1 IH]; intros [|y l2] H; cbn in *; try contradiction.
+  destruct H as [H|H]; [left; exact H|right; eapply IH; eauto].
+Qed.
+Lemma NoDup_combine_fst {X Y} (l1 : list X) (l2 : list Y) : NoDup l1 -> NoDup (map fst (combine l1 l2)).
+Proof.
+  revert l2. induction l1 as [|x l1 IH]; intros [|y l2] ND; cbn; try constructor.
+  - inversion ND; subst. intros H. apply in_combine_fst in H. contradiction.
+  - inversion ND; subst. apply IH. assumption.
+Qed.
+Lemma combine_seq_nth {Y} (cs : list Y) n len j c : nth_error cs j = Some c -> j < len -> In (n + j, c) (combine (seq n len) cs).
+Proof.
+  revert n len j. induction cs as [|y cs IH]; intros n len [|j] H Hl; cbn in H; try discriminate.
+  - inversion H; subst. destruct len; [lia|]. cbn. left. rewrite Nat.add_0_r. reflexivity.
+  - destruct len; [lia|]. cbn. right. replace (n + S j) with (S n + j) by lia. apply IH; [exact H|lia].
+Qed.
+Lemma Forall2_nth {X Y} (R : X -> Y -> Prop) l1 l2 j x : Forall2 R l1 l2 -> nth_error l1 j = Some x ->
+  exists y, nth_error l2 j = Some y /\ R x y.
+Proof.
+  intros F. revert j. induction F as [|a b l1 l2 H _ IH]; intros [|j] E; cbn in E; try discriminate.
+  - inversion E; subst. exists b. auto.
+  - apply IH. exact E.
+Qed.
+
+Lemma own_ok_weaken pn cp x i a r1 s1 t1 :
+  own_ok pn cp false r1 s1 t1 x i a -> own_ok pn cp true r1 s1 t1 x i a.
+Proof. intros [H|[H|(H & _)]]; [left; exact H|right; left; exact H|discriminate]. Qed.
+
+(* the frame a call builds is related to the environment the reference interpreter builds *)
+Lemma call_setup r s t cl scl (bs : list (string * value)) :
+  GInv r s t -> clo_rel r (length (cells s)) cl scl ->
+  (forall b, In b bs -> In (fst b) (map param_name (c_params cl))) ->
+  exists sc' n new s1 t1 r1,
+    body_compiled sc' n (c_body cl) (sc_body scl) (di_nslots (sc_info scl)) /\
+    (forall B (K : env -> M B),
+       (nw <- alloc_cells (Sem.dedup (map param_name (c_params cl) ++ locals_of (c_body cl))) ;;
+        mapM (fun b => match lookup (fst b) nw with Some a => set_cell a (snd b) | None => ret tt end) bs ;;; K nw) s = K new s1) /\
+    (forall B (K : SM B),
+       (set_cur (repeat FEmpty (di_nslots (sc_info scl))) ;;~
+        smapM (fun b => match sidx (fst b) (di_names (sc_info scl)) with
+                        | Some i => set_slot i (FVal (snd b)) | None => sret tt end) bs ;;~
+        smapM wrap_slot (di_wrap (sc_info scl)) ;;~
+        smapM (fun pc => set_slot (fst pc) (FCell (snd pc))) (combine (map snd (di_parents (sc_info scl))) (sc_captured scl)) ;;~
+        K) t = K t1) /\
+    GInv r1 s1 t1 /\ FrameRel (new ++ c_env cl) sc' r1 s1 t1 /\
+    sub r r1 /\ (forall a, dom r1 a -> dom r a \/ length (cells s) <= a) /\
+    length (cells s) <= length (cells s1) /\
+    (forall a, a < length (cells s) -> nth_error (cells s1) a = nth_error (cells s) a) /\
+    (forall a, own (new ++ c_env cl) sc' a -> length (cells s) <= a \/ dom r a).
+Proof.
+  intros G [sc sc' slotnames capt free n Hps Hdf Hpnd Hnames Hsnd Hfs Hdn Hw Hb Hend Hebound Hcopied Houter] Hbs.
+  set (P := filter (is_local sc) (dedup free)) in *.
+  destruct (fun_scope_inv _ _ _ _ _ _ _ P Hfs eq_refl) as (Hall & Hpf & Hpsnd & Hn & Hsc').
+  set (pnames := map param_name (c_params cl)) in *.
+  set (names := Sem.dedup (pnames ++ locals_of (c_body cl))).
+  destruct (alloc_cells_spec names s) as (new & Ea & Hf & Hs).
+  set (m := length names) in *.
+  assert (Hlk : forall x i, sidx x slotnames = Some i -> exists a, lookup x new = Some a).
+  { intros x i Ei. assert (Hin : In x names).
+    { apply sem_dedup_In. apply Hnames. apply sidx_nth in Ei. eapply nth_error_In; eauto. }
+    pose proof (lookup_new x new names Hf) as Hl. destruct (sidx x names) eqn:E.
+    - destruct Hl as (a & La & _). eauto.
+    - apply sidx_none in E. contradiction. }
+  assert (Hlkn : forall x, sidx x slotnames = None -> lookup x new = None).
+  { intros x Ei. pose proof (lookup_new x new names Hf) as Hl. destruct (sidx x names) eqn:E; [|exact Hl].
+    exfalso. apply sidx_none in Ei. apply Ei. apply Hnames. apply sem_dedup_In. apply sidx_nth in E. eapply nth_error_In; eauto. }
+  assert (Hpn : forall x, In x pnames -> In x slotnames) by (intros x Hx; apply Hnames; apply in_or_app; left; exact Hx).
+  pose proof (g_genv _ _ _ G) as Hgenv.
+  set (t0 := with_cur t (repeat FEmpty (di_nslots (sc_info scl)))).
+  assert (S0 : SInv r s new slotnames pnames capt m false r (grow s m) t0).
+  { constructor.
+    - apply GInv_cur. apply GInv_grow. exact G.
+    - cbn [grow cells]. rewrite app_length, repeat_length. reflexivity.
+    - intros a Ha. cbn [grow cells]. apply nth_error_app1. exact Ha.
+    - apply sub_refl.
+    - intros a Ha. left. exact Ha.
+    - intros x i Ei. destruct (Hlk x i Ei) as [a La]. exists a. split; [exact La|]. left.
+      pose proof (new_range s new m Hs x a La) as Hr. cbn [grow cells t0 cur with_cur].
+      rewrite nth_error_app2 by lia. rewrite nth_error_repeat by lia. rewrite fget_repeat.
+      split; [reflexivity|]. split; [reflexivity|]. intros [c Hd]. destruct (g_cells _ _ _ G a c Hd). lia. }
+  destruct (setup_binds r s new slotnames pnames capt m Hs Hpn Hgenv bs Hbs r (grow s m) t0 S0)
+    as (us & us' & s1 & t1 & E1 & E2 & S1).
+  assert (S1' : SInv r s new slotnames pnames capt m true r s1 t1).
+  { destruct S1. constructor; auto. intros x i Ei. destruct (si_own0 x i Ei) as (a & La & Hok). exists a. split; [exact La|].
+    eapply own_ok_weaken; eauto. }
+  destruct (setup_wrap r s new slotnames pnames capt m Hs Hgenv (di_wrap (sc_info scl))
+              ltac:(rewrite Hw; intros i Hi; eapply wrap_slots_In; eauto) r s1 t1 S1')
+    as (us2 & r2 & t2 & E3 & S2 & Hnv).
+  destruct (smapM_set_slots (combine (map snd (di_parents (sc_info scl))) (sc_captured scl)) t2) as [us3 E4].
+  set (t3 := with_cur t2 _) in E4.
+  exists sc', n, new, s1, t3, r2.
+  split; [exact Hb|]. split; [|split].
+  - intros B K. unfold bind at 1. fold pnames. fold names. rewrite Ea. fold (grow s m). unfold bind at 1. rewrite E1. reflexivity.
+  - intros B K. unfold sbind at 1. unfold set_cur at 1. fold t0. unfold sbind at 1. rewrite Hdn, E2.
+    unfold sbind at 1. rewrite E3. unfold sbind at 1. rewrite E4. reflexivity.
+  - destruct S2 as [G2 L2 O2 Sb2 D2 Own2].
+    assert (Hcl : length (sc_captured scl) = length P) by (symmetry; eapply Forall2_length'; eauto).
+    assert (Hlow : forall i, i < length slotnames -> fget (cur t3) i = fget (cur t2) i).
+    { intros i Hi. unfold t3. cbn [cur with_cur]. apply fold_fset_other. intros Hin. apply in_combine_fst in Hin.
+      rewrite Hpsnd in Hin. apply in_seq in Hin. lia. }
+    assert (Hhigh : forall j x, nth_error P j = Some x ->
+              exists a c, lookup x (c_env cl) = Some a /\ r a c /\ fget (cur t3) (length slotnames + j) = FCell c).
+    { intros j x Ej. destruct (Forall2_nth _ _ _ _ _ Hcopied Ej) as (c & Ec & a & La & Hr). exists a, c.
+      split; [exact La|]. split; [exact Hr|]. unfold t3. cbn [cur with_cur]. apply fold_fset_in.
+      - apply NoDup_combine_fst. rewrite Hpsnd. apply seq_NoDup.
+      - rewrite Hpsnd. apply combine_seq_nth; [exact Ec|]. apply nth_error_Some. congruence. }
+    assert (HPnd : NoDup P) by (unfold P; apply NoDup_filter; apply Proofs.dedup_NoDup).
+    assert (Hent : forall x, sassoc x (sc_entries sc') =
+              match sidx x slotnames with
+              | Some i => Some (i, capt x)
+              | None => option_map (fun j => (length slotnames + j, true)) (sidx x P) end).
+    { intros x. rewrite Hsc'. cbn [sc_entries]. rewrite sassoc_app, sassoc_indexed.
+      destruct (sidx x slotnames) as [i|]; cbn [option_map]; [reflexivity|].
+      rewrite (sassoc_indexed (fun _ => true)). reflexivity. }
+    assert (Hnewcells : forall a, In a (map snd new) -> length (cells s) <= a < length (cells s) + m).
+    { intros a Ha. rewrite Hs in Ha. apply in_seq in Ha. exact Ha. }
+    split; [apply GInv_cur; exact G2|]. split; [|split; [exact Sb2|split; [exact D2|split; [lia|split; [exact O2|]]]]].
+    + constructor.
+      * rewrite map_app. apply NoDup_app_iff'. split; [rewrite Hs; apply seq_NoDup|]. split; [exact Hend|].
+        intros a H1 H2. specialize (Hnewcells a H1). specialize (Hebound a H2). lia.
+      * intros a Ha. rewrite map_app in Ha. apply in_app_or in Ha.
+        destruct Ha as [Ha|Ha]; [specialize (Hnewcells a Ha)|specialize (Hebound a Ha)]; lia.
+      * intros x y i k k'. rewrite !Hent. destruct (sidx x slotnames) as [ix|] eqn:Ex, (sidx y slotnames) as [iy|] eqn:Ey; intros H1 H2.
+        -- inversion H1; inversion H2; subst. eapply sidx_inj; eauto.
+        -- inversion H1; subst. destruct (sidx y P); cbn in H2; [|discriminate]. inversion H2. apply sidx_lt in Ex. lia.
+        -- inversion H2; subst. destruct (sidx x P); cbn in H1; [|discriminate]. inversion H1. apply sidx_lt in Ey. lia.
+        -- destruct (sidx x P) as [jx|] eqn:Ejx, (sidx y P) as [jy|] eqn:Ejy; cbn in H1, H2; try discriminate.
+           inversion H1; inversion H2; subst. assert (jx = jy) by lia. subst. eapply sidx_inj; eauto.
+      * intros x. rewrite Hent. rewrite lookup_app. destruct (sidx x slotnames) as [i|] eqn:Ei.
+        -- destruct (Own2 x i Ei) as (a & La & Hok). rewrite La.
+           pose proof (new_range s new m Hs x a La) as Hr.
+           assert (Hg : ~ In a (map snd genv)) by (intros H; apply Hgenv in H; lia).
+           rewrite (Hlow i (sidx_lt _ _ _ Ei)).
+           destruct (capt x) eqn:Ec.
+           ++ exists a. split; [reflexivity|]. split; [exact Hg|].
+              destruct Hok as [(F1 & F2 & F3)|[(w & F1 & F2 & F3 & F4)|(_ & _ & c & F2 & F3)]].
+              ** left. auto.
+              ** exfalso. assert (Hin : In i (di_wrap (sc_info scl))).
+                 { rewrite Hw. unfold wrap_slots. apply in_flat_map. exists (i, x). split.
+                   - unfold indexed. replace i with (0 + i) by lia. apply combine_seq_nth; [apply sidx_nth; exact Ei|apply sidx_lt in Ei; exact Ei].
+                   - cbn [fst snd]. rewrite Ec. assert (mem x pnames = true) by (apply Proofs.mem_In; exact F4). rewrite H. left. reflexivity. }
+                 apply (Hnv i (or_introl Hin) w). exact F2.
+              ** right. exists c. auto.
+           ++ exists a. split; [reflexivity|].
+              destruct Hok as [(F1 & F2 & F3)|[(w & F1 & F2 & F3 & F4)|(_ & F0 & _)]]; [| |congruence].
+              ** split; [exact F3|]. split; [exact Hg|]. intros v Hv. congruence.
+              ** split; [exact F3|]. split; [exact Hg|]. intros v Hv. congruence.
+        -- rewrite (Hlkn x Ei). destruct (sidx x P) as [j|] eqn:Ej; cbn [option_map].
+           ++ destruct (Hhigh j x (sidx_nth _ _ _ Ej)) as (a & c & La & Hr & Hfc). exists a. split; [exact La|].
+              destruct (g_cells _ _ _ G a c Hr) as (_ & _ & _ & Hg). split; [exact Hg|]. right. exists c. split; [exact Hfc|apply Sb2; exact Hr].
+           ++ rewrite Hsc'. cbn [sc_hidden]. intros Hh. unfold mem in Hh. rewrite existsb_app in Hh. apply orb_false_iff in Hh. destruct Hh as [Hh1 Hh2].
+              apply Houter; [|exact Hh2]. unfold is_local. destruct (sassoc x (sc_entries sc)) eqn:Es; [|reflexivity].
+              exfalso. assert (In x (map fst (sc_entries sc))).
+              { destruct (in_dec string_dec x (map fst (sc_entries sc))) as [Hi|Hi]; [exact Hi|]. apply sassoc_none in Hi. congruence. }
+              assert (existsb (String.eqb x) (map fst (sc_entries sc)) = true) by (apply existsb_exists; exists x; split; [assumption|apply String.eqb_refl]).
+              congruence.
+    + intros a (x & e & Ex & Lx). rewrite Hent in Ex. rewrite lookup_app in Lx. destruct (sidx x slotnames) as [i|] eqn:Ei.
+      * destruct (Hlk x i Ei) as [a' La]. rewrite La in Lx. inversion Lx; subst. left. apply (new_range s new m Hs x a La).
+      * rewrite (Hlkn x Ei) in Lx. destruct (sidx x P) as [j|] eqn:Ej; cbn in Ex; [|discriminate].
+        destruct (Hhigh j x (sidx_nth _ _ _ Ej)) as (a' & c & La & Hr & _). right. exists c. congruence.
 Qed.
